@@ -374,7 +374,8 @@ def run(tier, seed):
                 'established real session; plus the axes every length value (%d values x 6 types) and every type octet (256 x 2 lengths) '
                 'with a sentinel KEEPALIVE behind; distinct_nontrivial = distinct (stream class, number of distinct outcomes) / axis classes'
                 % (3, len(VALID), len(HOSTILE), len(TAILS), len(lens)),
-        'samples': [{'stream': 'UPD+LEN18', 'segmentation': '2cut (19, 60)'}, {'axis': 'length', 'type': 2, 'length': 4097}],
+        'samples': [({'stream': '+'.join(report.pick(t[1][0], seed, 1)[0]), 'cut_families': 'whole, bytewise, all 1-cuts' + (', all 2-cuts' if t[1][1] >= 2 else ''), 'state': t[1][2]}
+                     if t[0] == 's' else {'axis': t[1][0], 'type_and_length': report.pick(t[1][1], seed, 1)[0]}) for t in report.pick(tasks, seed, 4)],
         'streams': ns, 'deliveries': nd, 'length_values': len(lens),
         'exhaustive': tier == 'thorough', 'caps': [] if tier == 'thorough' else ['2-cuts only for streams whose first frame does not end the session', 'length axis sampled: every 257th value + all near 0/19/4096/65535', '3-frame streams: one fifth (rotates with VERIF_SEED), 1-cuts only'],
         'violation_keys': summary,
